@@ -102,6 +102,12 @@ class Folder(object):
 
     # -- main ------------------------------------------------------------
 
+    def fold_with(self, node, mod, cls=None, env=None, overrides=None):
+        """fold with attribute overrides: {'Packet.MAX_SIZE': 484, ...} shadow class constants"""
+        if overrides:
+            node = _Subst(overrides).visit(_copy(node))
+        return self.fold(node, mod, cls=cls, env=env)
+
     def fold(self, node, mod, cls=None, env=None, in_class_body=False):
         """env: dict name -> value for local bindings (parameters / straight-line locals).
         cls: ClassInfo used for `self.X` / `cls.X` and (in class body) bare names."""
@@ -332,8 +338,8 @@ _FALL = object()
 
 
 def _copy(node):
-    import copy
-    return copy.deepcopy(node)
+    from .index import clone_expr
+    return clone_expr(node)
 
 
 class _Subst(ast.NodeTransformer):
